@@ -4,12 +4,73 @@ import (
 	"fmt"
 	"math/rand"
 	"sync"
+	"sync/atomic"
 	"time"
+
+	"github.com/xelaj/mtproto/internal/encoding/tl"
+	"github.com/xelaj/mtproto/internal/utils"
 
 	"github.com/xelaj/mtproto/zverif/wk"
 )
 
-func init() { wk.Register("c09", c09) }
+func init() {
+	wk.Register("c09", c09)
+	wk.Register("c09table", c09table)
+}
+
+// c09table: the table that maps request ids to waiting callers, driven directly by many goroutines with unique
+// keys: Add(k) then Get(k) must find exactly the channel added (nobody else touches k) until the owner's
+// Delete(k), which must report that the key was there. Few keys live at any time, so the table becomes empty
+// again and again. This is the exactly-once rule of the dispatch table at its own boundary.
+func c09table(c *wk.Ctx) {
+	idx := 0
+	for round := 0; round < c.Pick(4, 40); round++ {
+		if c.Mine(idx) {
+			c.Begin(idx, fmt.Sprintf("table round %d", round))
+			tbl := utils.NewSyncIntObjectChan()
+			workers := 2 + round%7
+			per := c.Pick(60000, 400000)
+			var lost, wrong, undeleted int64
+			var wg sync.WaitGroup
+			for w := 0; w < workers; w++ {
+				wg.Add(1)
+				go func(w int) {
+					defer wg.Done()
+					ch := make(chan tl.Object)
+					for i := 0; i < per; i++ {
+						k := w*per*2 + i + 1
+						tbl.Add(k, ch)
+						got, ok := tbl.Get(k)
+						if !ok {
+							atomic.AddInt64(&lost, 1)
+						} else if got != ch {
+							atomic.AddInt64(&wrong, 1)
+						}
+						if i%3 == 0 {
+							_ = tbl.Keys()
+						}
+						if !tbl.Delete(k) && ok {
+							atomic.AddInt64(&undeleted, 1)
+						}
+						if tbl.Has(k) {
+							atomic.AddInt64(&wrong, 1)
+						}
+					}
+				}(w)
+			}
+			wg.Wait()
+			c.Count("table.operations", int64(workers*per*4))
+			c.Distinct("table", round, workers)
+			if lost > 0 || wrong > 0 || undeleted > 0 {
+				c.Viol("C09", idx, "table/entry-lost", fmt.Sprintf("%d goroutines x %d add/get/delete cycles on unique keys: %d entries were not found right after being added, %d wrong, %d not deletable — a caller registered in the table would never receive its result", workers, per, lost, wrong, undeleted), nil)
+			}
+			if round == 0 {
+				c.Sample(map[string]interface{}{"workload": "response table under concurrent add/get/delete with unique keys", "goroutines": workers, "cycles_each": per})
+			}
+		}
+		idx++
+	}
+}
 
 type rpcScenario struct {
 	Callers    int
